@@ -131,3 +131,41 @@ Proof.
       assert (Hr : In r (filter (fun r => mems n (s_labels r)) G)) by (rewrite F; left; auto).
       apply filter_In in Hr as (Hr & Hm). apply mems_In in Hm. eauto.
 Qed.
+
+(* ------------------------------------------------------------------ downgrade targets with a label *)
+(* after the repair 965a10e: `label@-N` with no current revision is the documented RevisionError, for every history *)
+Theorem downgrade_label_relative_empty M l ds : plain l -> l <> [] -> word l -> digits ds ->
+  parse_downgrade_target M [] (l ++ c_at :: c_minus :: ds) true = Err ERevision.
+Proof.
+  intros PL NE Hw Hd. unfold parse_downgrade_target.
+  destruct regex_char as (_ & _ & _ & RC).
+  specialize (RC l [] c_minus ds NE Hw eq_refl eq_refl Hd). cbn [app] in RC. rewrite RC. cbn [opt_word].
+  destruct (0 <=? rel_val c_minus ds)%Z; [reflexivity|].
+  assert (F : filter_for_lineage M [] l = Ok []).
+  { unfold filter_for_lineage. rewrite (rrn_plain M l PL). reflexivity. }
+  rewrite F. cbn [bind].
+  assert (A : get_all_current M [] = Ok []) by reflexivity.
+  rewrite A. cbn [bind]. rewrite F. reflexivity.
+Qed.
+
+(* the absolute downgrade target label@rev does not check the label: a(lab0), b unrelated *)
+Definition s_aaaa := [97;97;97;97]%N.
+Definition s_bbbb := [98;98;98;98]%N.
+Definition s_lab0 := [108;97;98;48]%N.
+Definition G_unrel : list srev := [mkS s_aaaa [] [] [s_lab0]; mkS s_bbbb [] [] []].
+Theorem downgrade_label_unchecked :
+  exists M, load G_unrel [(s_aaaa, s_aaaa)] = Ok M /\
+    parse_downgrade_target M [] (at_join s_lab0 s_bbbb) true = Ok (Some s_lab0, EId s_bbbb) /\
+    get_revision M (at_join s_lab0 s_bbbb) = Err EResolution /\
+    revision_for_ident0 M (Some s_lab0) = Ok (Some (mkS s_aaaa [] [] [s_lab0])) /\
+    ~ lineage G_unrel s_aaaa s_bbbb.
+Proof.
+  destruct (load G_unrel [(s_aaaa, s_aaaa)]) as [M|] eqn:E; [|vm_compute in E; discriminate].
+  exists M. split; [reflexivity|]. vm_compute in E. inversion E; subst; clear E.
+  split; [vm_compute; reflexivity|]. split; [vm_compute; reflexivity|]. split; [vm_compute; reflexivity|].
+  assert (D : forall x, down_of G_unrel x = []).
+  { intros x. unfold down_of, G_unrel. cbn [find_rev s_id]. destruct (streqb s_aaaa x); [reflexivity|]. destruct (streqb s_bbbb x); reflexivity. }
+  assert (P : forall x y, path (down_of G_unrel) x y -> x = y).
+  { intros x y H. destruct H as [|x c z Hc _]; auto. rewrite D in Hc. destruct Hc. }
+  intros [H|H]; apply P in H; discriminate.
+Qed.
